@@ -846,6 +846,9 @@ def m_vec_contains(eng, ctx, f, path, args, dty):
 def m_vec_iter(eng, ctx, f, path, args, dty):
     """iter()/iter_mut()/(&v).into_iter(): pointers to the elements"""
     v = the_vec(eng, ctx, args[0])
+    if not isinstance(_strip(eng, ctx, args[0]), Ptr):
+        # a slice value that is not held in a place (handed over by a model): read-only element cells
+        return Native("liter", (tuple(Ptr(("static", MC.new_cell(ctx, x, "elem"))) for x in v.data), 0))
     return Native("liter", (tuple(elem_ptr(eng, ctx, args[0], i) for i in range(len(v.data))), 0))
 
 
